@@ -217,14 +217,15 @@ def fullTotal (cap : Nat) : Nat → Nat → Nat
 
 /-- what `makeFullBeforeSharing` leaves in the leaves: every id `< cap` available. The leaves wholly beyond `cap` are zeroed by
 `truncateExtras` except the last one when `cap` is not a multiple of 64 (its `fill_n(…, rightLeaves-1, 0)` stops one short;
-the stale bits are unreachable because every counter above them is 0). For `cap % 64 = 0` the first unused leaf is meant to
-become 0 via `node >>= 64`, which is undefined behaviour in C++ (`fullUB`); the closed form follows the documented intent. -/
+the stale bits are unreachable because every counter above them is 0). For `cap % 64 = 0` the first unused leaf is set to 0
+by `leafTruncate(pos, 0)` (since fix 1ff5fc0; before it this was `node >>= 64`, undefined behaviour: `fullUB`). -/
 def fullLeaf (cap H o : Nat) : Nat :=
   if o * BitsPerLeaf < cap then 2 ^ (fullTotal cap 0 o) - 1
   else if cap % BitsPerLeaf ≠ 0 ∧ o + 1 = 2 ^ H then 2 ^ 64 - 1
   else 0
 
-/-- `truncateExtras` runs and calls `leafTruncate(pos, 0)`, i.e. shifts a 64-bit word by 64 -/
+/-- PRE-FIX code only (before commit 1ff5fc0): `truncateExtras` runs and calls `leafTruncate(pos, 0)`, which shifted a 64-bit
+word by 64 -/
 def fullUB (cap H : Nat) : Bool := cap % BitsPerLeaf = 0 && cap != 2 ^ H * BitsPerLeaf
 
 /-- inner nodes after `makeFullBeforeSharing`: exact subtree totals in live nodes. Dead nodes keep what `fillAllNodes` wrote
